@@ -199,6 +199,13 @@ Definition ex_crit_stop : scase :=
     (Build_script [([EvalCount 3; Result ex_r0], Ok 1%Z); ([EvalCount 9], Ok 2%Z)] [])
     [] [] (Err ""%string).
 
+(* the budget binds: 3 + 2 = 5 evaluations reported reach max_circuit_evaluations = 5, the third application (which
+   would report 9 more) is never started *)
+Definition ex_budget : scase :=
+  Build_scase 2 None (Some 5%Z) None None ANone 0%Z
+    (Build_script [([EvalCount 3], Ok 1%Z); ([EvalCount 2; Result ex_r0], Ok 2%Z); ([EvalCount 9], Ok 3%Z)] [])
+    [] [] (Err ""%string).
+
 (* a world in which every application of the single operator reports one count and one result, forever *)
 Definition steady_world : world Z cR Z nat unit Z Z Z Z :=
   {| w_apply := fun _ _ p => ([EvalCount 2; Result ex_r0], Ok p, tt);
